@@ -53,6 +53,24 @@ Theorem C04_no_interference_while_held : forall t sched s s',
   Forall (fun ua => snd ua <> AWrite /\ snd ua <> AFree) sched /\ Mach.getth s' t = Mach.getth s t /\ Mach.live s' = true.
 Proof. exact no_interference_while_held. Qed.
 
+(* ---- lending: a handle shared BY REFERENCE with a scoped thread (ALend / AReadB / AJoinB): the borrower reads through
+   the lender's reference without touching the count; the lender, while the loan lasts, only reads, clones, lends and
+   joins (no &mut method: borrowck).  These actions are part of the machine, so C04_protocol_safe_all_schedules covers
+   every schedule with any number of borrowers; and in every reachable state with an outstanding loan the buffer is
+   live, the lender still holds its reference, and nobody is exclusive or must free.  (Cloning THROUGH a borrowed
+   reference is not modelled: see DESIGN.) ---- *)
+Theorem C04_borrowed_buffer_protected : forall n sched s c p,
+  Mach.run (Mach.init n) sched = Mach.Ok s -> Mach.lend (Mach.getth s c) = S p ->
+  Mach.live s = true /\ (Mach.refs (Mach.getth s p) > 0)%nat
+  /\ forall q, Mach.excl (Mach.getth s q) = false /\ Mach.mustfree (Mach.getth s q) = false.
+Proof. exact borrowed_buffer_protected. Qed.
+Example C04_lending_example :
+  (exists s, Mach.run (Mach.init 2) [(0,ALend 1);(1,AReadB);(0,ARead);(1,AReadB);(0,AJoinB 1);(0,AProbe 0);(0,AWrite);
+                                     (0,ARelease);(0,Mach.AFence);(0,AReadM);(0,AFree)]%nat = Mach.Ok s /\ Mach.live s = false)
+  /\ Mach.run (Mach.init 2) [(0,ALend 1);(1,AReadB);(0,AProbe 0)]%nat = Mach.Stuck      (* the lender may not probe / write *)
+  /\ Mach.run (Mach.init 2) [(0,ALend 1);(0,ARelease)]%nat = Mach.Stuck.                 (* ... nor drop its handle *)
+Proof. split; [eexists; vm_compute; split; reflexivity|]. split; vm_compute; reflexivity. Qed.
+
 (* ---- thread-local side: the modelled functions only perform actions whose protocol precondition holds, whatever
    the shared memory returns: the buffer is written / reallocated only after an acquire load returned 1 while the
    thread held a reference; it is read only while holding one; the reference is given up last; dealloc only by the
@@ -163,6 +181,8 @@ Print Assumptions C04_invariant.
 Print Assumptions C04_write_excludes_others.
 Print Assumptions C04_free_excludes_holders.
 Print Assumptions C04_no_interference_while_held.
+Print Assumptions C04_borrowed_buffer_protected.
+Print Assumptions C04_lending_example.
 Print Assumptions C04_clone_respects_protocol.
 Print Assumptions C04_drop_respects_protocol.
 Print Assumptions C04_reserve_respects_protocol.
